@@ -1,7 +1,7 @@
 import PcfgVerif.Model.SoftFloat
 import PcfgVerif.Model.Prob
-/-! Proofs about the binary64 multiplication model: monotone rounding, correct rounding (half-ulp bound),
-53-bit significands, closure of [0, 1], and the resulting `PAlg` instance (`sfAlg`).  Core Lean only. -/
+/-! Proofs about the binary64 model: monotone rounding, correct rounding (half-ulp bound), 53-bit
+significands, closure of [0, 1], and the resulting `PAlg` instance (`sfAlg`).  Core Lean only. -/
 namespace Pcfg.SF
 
 theorem lt_two_pow_bitLen (n : Nat) : n < 2 ^ bitLen n := by
@@ -23,74 +23,74 @@ theorem bitLen_mono {a b : Nat} (h : a ≤ b) : bitLen a ≤ bitLen b := by
 theorem shiftOf_mono {a b : Nat} (h : a ≤ b) : shiftOf a ≤ shiftOf b := by
   have := bitLen_mono h; unfold shiftOf; omega
 
-theorem roundAt_le (N t : Nat) : roundAt N t ≤ N / 2 ^ t + 1 := by
+theorem roundAt_le (N T : Nat) : roundAt N T ≤ N / T + 1 := by
   unfold roundAt; split <;> omega
 
-theorem le_roundAt (N t : Nat) : N / 2 ^ t ≤ roundAt N t := by
+theorem le_roundAt (N T : Nat) : N / T ≤ roundAt N T := by
   unfold roundAt; split <;> omega
 
-/-- same scale: rounding the significand is monotone -/
-theorem roundAt_mono (t : Nat) {N1 N2 : Nat} (h : N1 ≤ N2) : roundAt N1 t ≤ roundAt N2 t := by
-  have hT : 0 < 2 ^ t := Nat.two_pow_pos _
-  have hn : N1 / 2 ^ t ≤ N2 / 2 ^ t := Nat.div_le_div_right h
-  by_cases he : N1 / 2 ^ t = N2 / 2 ^ t
-  · have h1 := Nat.div_add_mod N1 (2 ^ t)
-    have h2 := Nat.div_add_mod N2 (2 ^ t)
-    have hr : N1 % 2 ^ t ≤ N2 % 2 ^ t := by rw [he] at h1; omega
+/-- same scale: rounding to the nearest integer multiple is monotone -/
+theorem roundAt_mono (T : Nat) {N1 N2 : Nat} (h : N1 ≤ N2) : roundAt N1 T ≤ roundAt N2 T := by
+  have hn : N1 / T ≤ N2 / T := Nat.div_le_div_right h
+  by_cases he : N1 / T = N2 / T
+  · have h1 := Nat.div_add_mod N1 T
+    have h2 := Nat.div_add_mod N2 T
+    have hr : N1 % T ≤ N2 % T := by rw [he] at h1; omega
     unfold roundAt roundUp
     rw [he]
-    generalize N2 / 2 ^ t = n at *
-    generalize N1 % 2 ^ t = r1 at *
-    generalize N2 % 2 ^ t = r2 at *
-    generalize 2 ^ t = T at *
+    generalize N2 / T = n at *
+    generalize N1 % T = r1 at *
+    generalize N2 % T = r2 at *
     by_cases c1 : T < 2 * r1 <;> by_cases c2 : T < 2 * r2 <;> by_cases c3 : 2 * r1 = T <;>
       by_cases c4 : 2 * r2 = T <;> by_cases c5 : n % 2 = 1 <;> simp [c1, c2, c3, c4, c5] <;> omega
-  · have : N1 / 2 ^ t + 1 ≤ N2 / 2 ^ t := by omega
-    exact Nat.le_trans (roundAt_le N1 t) (Nat.le_trans this (le_roundAt N2 t))
+  · have : N1 / T + 1 ≤ N2 / T := by omega
+    exact Nat.le_trans (roundAt_le N1 T) (Nat.le_trans this (le_roundAt N2 T))
 
-theorem div_shift (N k s : Nat) : N / 2 ^ (k + s) = N / 2 ^ k / 2 ^ s := by
-  rw [Nat.pow_add, Nat.div_div_eq_div_mul]
+theorem div_shift (N D s : Nat) : N / (D * 2 ^ s) = N / D / 2 ^ s := by
+  rw [Nat.div_div_eq_div_mul]
 
-/-- rounding to a 53-bit significand is monotone -/
-theorem roundTo_mono (k : Nat) {N1 N2 : Nat} (h : N1 ≤ N2) : roundTo N1 k ≤ roundTo N2 k := by
-  have hq : N1 / 2 ^ k ≤ N2 / 2 ^ k := Nat.div_le_div_right h
+/-- rounding a quotient to a 53-bit significand is monotone in the numerator -/
+theorem roundQ_mono (D : Nat) {N1 N2 : Nat} (h : N1 ≤ N2) : roundQ N1 D ≤ roundQ N2 D := by
+  have hq : N1 / D ≤ N2 / D := Nat.div_le_div_right h
   have hs := shiftOf_mono hq
-  unfold roundTo
+  unfold roundQ
   simp only
-  generalize hs1 : shiftOf (N1 / 2 ^ k) = s1 at *
-  generalize hs2 : shiftOf (N2 / 2 ^ k) = s2 at *
+  generalize hs1 : shiftOf (N1 / D) = s1 at *
+  generalize hs2 : shiftOf (N2 / D) = s2 at *
   by_cases he : s1 = s2
   · subst he
     exact Nat.mul_le_mul_right _ (roundAt_mono _ h)
   · have hlt : s1 < s2 := by omega
-    -- left side is at most 2^(53+s1)
-    have hl : roundAt N1 (k + s1) * 2 ^ s1 ≤ 2 ^ (53 + s1) := by
-      have hb : N1 / 2 ^ k < 2 ^ (53 + s1) := by
-        have h1 := lt_two_pow_bitLen (N1 / 2 ^ k)
-        have : bitLen (N1 / 2 ^ k) ≤ 53 + s1 := by unfold shiftOf at hs1; omega
+    have hl : roundAt N1 (D * 2 ^ s1) * 2 ^ s1 ≤ 2 ^ (53 + s1) := by
+      have hb : N1 / D < 2 ^ (53 + s1) := by
+        have h1 := lt_two_pow_bitLen (N1 / D)
+        have : bitLen (N1 / D) ≤ 53 + s1 := by unfold shiftOf at hs1; omega
         exact Nat.lt_of_lt_of_le h1 (Nat.pow_le_pow_right (by decide) this)
-      have hn : N1 / 2 ^ (k + s1) < 2 ^ 53 := by
+      have hn : N1 / (D * 2 ^ s1) < 2 ^ 53 := by
         rw [div_shift, Nat.div_lt_iff_lt_mul (Nat.two_pow_pos _), ← Nat.pow_add]; exact hb
-      have := roundAt_le N1 (k + s1)
-      have h53 : roundAt N1 (k + s1) ≤ 2 ^ 53 := by omega
+      have := roundAt_le N1 (D * 2 ^ s1)
+      have h53 : roundAt N1 (D * 2 ^ s1) ≤ 2 ^ 53 := by omega
       rw [Nat.pow_add]
       exact Nat.mul_le_mul_right _ h53
-    -- right side is at least 2^(52+s2)
-    have hr : 2 ^ (52 + s2) ≤ roundAt N2 (k + s2) * 2 ^ s2 := by
-      have hbl : bitLen (N2 / 2 ^ k) = 53 + s2 := by unfold shiftOf at hs2; omega
-      have hne : N2 / 2 ^ k ≠ 0 := by
+    have hr : 2 ^ (52 + s2) ≤ roundAt N2 (D * 2 ^ s2) * 2 ^ s2 := by
+      have hbl : bitLen (N2 / D) = 53 + s2 := by unfold shiftOf at hs2; omega
+      have hne : N2 / D ≠ 0 := by
         intro h0; rw [h0] at hbl; simp [bitLen] at hbl; omega
       have hb := two_pow_le_of_bitLen hne
       rw [hbl] at hb
-      have hn : 2 ^ 52 ≤ N2 / 2 ^ (k + s2) := by
+      have hn : 2 ^ 52 ≤ N2 / (D * 2 ^ s2) := by
         rw [div_shift, Nat.le_div_iff_mul_le (Nat.two_pow_pos _), ← Nat.pow_add]
         have : 53 + s2 - 1 = 52 + s2 := by omega
         rw [this] at hb; exact hb
-      have := le_roundAt N2 (k + s2)
+      have := le_roundAt N2 (D * 2 ^ s2)
       rw [Nat.pow_add]
       exact Nat.mul_le_mul_right _ (Nat.le_trans hn this)
     have : 2 ^ (53 + s1) ≤ 2 ^ (52 + s2) := Nat.pow_le_pow_right (by decide) (by omega)
     omega
+
+/-- rounding to a 53-bit significand is monotone -/
+theorem roundTo_mono (k : Nat) {N1 N2 : Nat} (h : N1 ≤ N2) : roundTo N1 k ≤ roundTo N2 k :=
+  roundQ_mono _ h
 
 theorem mul_mono_left (a a' b : Nat) (h : a ≤ a') : mul a b ≤ mul a' b :=
   roundTo_mono _ (Nat.mul_le_mul_right b h)
@@ -98,46 +98,46 @@ theorem mul_mono_left (a a' b : Nat) (h : a ≤ a') : mul a b ≤ mul a' b :=
 theorem mul_mono_right (a b b' : Nat) (h : b ≤ b') : mul a b ≤ mul a b' :=
   roundTo_mono _ (Nat.mul_le_mul_left a h)
 
+/-- `fl(c / t)` is monotone in the numerator: a larger count never gets a smaller probability -/
+theorem ratio_mono (t : Nat) {c1 c2 : Nat} (h : c1 ≤ c2) : ratio c1 t ≤ ratio c2 t :=
+  roundQ_mono _ (Nat.mul_le_mul_right _ h)
 
 /-- the result has a significand of at most 53 bits (2^53 itself = 2^52 · 2) -/
-theorem roundTo_significand (N k : Nat) :
-    ∃ m, roundTo N k = m * 2 ^ shiftOf (N / 2 ^ k) ∧ m ≤ 2 ^ 53 := by
-  refine ⟨roundAt N (k + shiftOf (N / 2 ^ k)), rfl, ?_⟩
-  have hb : N / 2 ^ k < 2 ^ (53 + shiftOf (N / 2 ^ k)) := by
-    have h1 := lt_two_pow_bitLen (N / 2 ^ k)
-    have : bitLen (N / 2 ^ k) ≤ 53 + shiftOf (N / 2 ^ k) := by unfold shiftOf; omega
+theorem roundQ_significand (N D : Nat) :
+    ∃ m, roundQ N D = m * 2 ^ shiftOf (N / D) ∧ m ≤ 2 ^ 53 := by
+  refine ⟨roundAt N (D * 2 ^ shiftOf (N / D)), rfl, ?_⟩
+  have hb : N / D < 2 ^ (53 + shiftOf (N / D)) := by
+    have h1 := lt_two_pow_bitLen (N / D)
+    have : bitLen (N / D) ≤ 53 + shiftOf (N / D) := by unfold shiftOf; omega
     exact Nat.lt_of_lt_of_le h1 (Nat.pow_le_pow_right (by decide) this)
-  have hn : N / 2 ^ (k + shiftOf (N / 2 ^ k)) < 2 ^ 53 := by
+  have hn : N / (D * 2 ^ shiftOf (N / D)) < 2 ^ 53 := by
     rw [div_shift, Nat.div_lt_iff_lt_mul (Nat.two_pow_pos _), ← Nat.pow_add]; exact hb
-  have := roundAt_le N (k + shiftOf (N / 2 ^ k))
+  have := roundAt_le N (D * 2 ^ shiftOf (N / D))
   omega
 
 /-- correctly rounded: the error is at most half a unit in the last place -/
-theorem roundAt_half (N t : Nat) :
-    2 * (N - roundAt N t * 2 ^ t) ≤ 2 ^ t ∧ 2 * (roundAt N t * 2 ^ t - N) ≤ 2 ^ t := by
-  have h1 := Nat.div_add_mod N (2 ^ t)
-  have hr := Nat.mod_lt N (Nat.two_pow_pos t)
+theorem roundAt_half (N T : Nat) (hT : 0 < T) :
+    2 * (N - roundAt N T * T) ≤ T ∧ 2 * (roundAt N T * T - N) ≤ T := by
+  have h1 := Nat.div_add_mod N T
+  have hr := Nat.mod_lt N hT
   unfold roundAt roundUp
-  generalize N / 2 ^ t = n at *
-  generalize N % 2 ^ t = r at *
-  generalize 2 ^ t = T at *
+  generalize N / T = n at *
+  generalize N % T = r at *
   by_cases c1 : T < 2 * r <;> by_cases c3 : 2 * r = T <;> by_cases c5 : n % 2 = 1 <;>
     simp [c1, c3, c5, Nat.add_mul, Nat.mul_comm n T] <;> omega
 
 /-- a value that already has the format is returned unchanged -/
-theorem roundAt_exact (N t : Nat) (h : N % 2 ^ t = 0) : roundAt N t * 2 ^ t = N := by
-  have h1 := Nat.div_add_mod N (2 ^ t)
-  have hT := Nat.two_pow_pos t
+theorem roundAt_exact (N T : Nat) (hT : 0 < T) (h : N % T = 0) : roundAt N T * T = N := by
+  have h1 := Nat.div_add_mod N T
   unfold roundAt roundUp
   rw [h] at h1 ⊢
-  have : ¬ (2 ^ t < 2 * 0) := by omega
-  have h2 : ¬ (2 * 0 = 2 ^ t) := by omega
+  have h2 : ¬ (2 * 0 = T) := by omega
   simp [h2]
   rw [Nat.mul_comm]; omega
 
 /-- powers of two are fixed points: rounding never crosses one -/
 theorem roundTo_pow (k j : Nat) : roundTo (2 ^ (k + j)) k = 2 ^ j := by
-  unfold roundTo
+  unfold roundTo roundQ
   simp only
   have hq : 2 ^ (k + j) / 2 ^ k = 2 ^ j := by
     rw [Nat.pow_add, Nat.mul_div_cancel_left _ (Nat.two_pow_pos k)]
@@ -147,12 +147,12 @@ theorem roundTo_pow (k j : Nat) : roundTo (2 ^ (k + j)) k = 2 ^ j := by
     simp
   have hs : shiftOf (2 ^ j) ≤ j := by unfold shiftOf; omega
   generalize shiftOf (2 ^ j) = s at *
+  rw [← Nat.pow_add]
   have hsplit : 2 ^ (k + j) = 2 ^ (j - s) * 2 ^ (k + s) := by
     rw [← Nat.pow_add]; congr 1; omega
   have hmod : 2 ^ (k + j) % 2 ^ (k + s) = 0 := by rw [hsplit]; exact Nat.mul_mod_left _ _
-  have hex := roundAt_exact _ _ hmod
-  -- roundAt * 2^(k+s) = 2^(k+j)  ⇒ roundAt * 2^s = 2^j
-  have : roundAt (2 ^ (k + j)) (k + s) * 2 ^ s * 2 ^ k = 2 ^ j * 2 ^ k := by
+  have hex := roundAt_exact _ _ (Nat.two_pow_pos (k + s)) hmod
+  have : roundAt (2 ^ (k + j)) (2 ^ (k + s)) * 2 ^ s * 2 ^ k = 2 ^ j * 2 ^ k := by
     rw [Nat.mul_assoc, ← Nat.pow_add, Nat.add_comm s k, hex, Nat.pow_add, Nat.mul_comm]
   exact Nat.eq_of_mul_eq_mul_right (Nat.two_pow_pos k) this
 
@@ -166,8 +166,7 @@ theorem mul_le_one (a b : Nat) (ha : a ≤ one) (hb : b ≤ one) : mul a b ≤ o
 
 /-- zero is absorbing -/
 theorem mul_zero (b : Nat) : mul 0 b = 0 := by
-  simp [mul, roundTo, roundAt, roundUp, shiftOf, bitLen]
-
+  simp [mul, roundTo, roundQ, roundAt, roundUp, shiftOf, bitLen]
 
 end Pcfg.SF
 
